@@ -124,7 +124,7 @@ void harness(void) { Event* e; size_t n; g.n = n; g.registered = g.first_sub_don
     if not m_un or not m_sh:
         raise ExtractionBreak('WaitRange: registration lambdas not found')
     pre = [(r'std::is_same_v<UniqueHandle,\s*decltype\(handle\)>', 'IS_UNIQUE', 0), (r'handle\.SetCallback\(\s*event\.GetCall\(\)\s*\)', 'SetCallback(handle, EVENT_CALL)', 0),
-           (r'handle\.SetCallback\(\s*event\.callbacks\[\s*callback_count\+\+\s*\]\s*\)', 'SetCallback(handle, HELPER(callback_count++))', 0)]
+           (r'handle\.SetCallback\(\s*event\.callbacks\[\s*([^\]]+?)\s*\]\s*\)', r'SetCallback(handle, HELPER(\1))', 0)]
     for nm, body, uniq in (('unique', m_un.group(1), 1), ('shared.unique_handle', m_sh.group(1), 1), ('shared.shared_handle', m_sh.group(1), 0)):
         c = Rewriter('WaitRange.lambda.' + nm, pre=pre).rewrite(body)
         src = '#include "vf.h"\n#define IS_UNIQUE %d\n' % uniq + '''#define EVENT_CALL (-1L)
